@@ -322,12 +322,79 @@ def order_pred(c):
     return {"nontrivial": bool(rates), "labels": ["rates-measured" if rates else "below-noise"], "evals": 6}
 
 
+
+# ------------------------------------------------------------------------------------------------
+# the same operator object stepped several times with different potentials / time steps
+# ------------------------------------------------------------------------------------------------
+@st.composite
+def reuse_cases(draw, tier):
+    c = draw(base(tier, max_n=10))
+    c["phimodes"] = [list(m) for m in draw(st.lists(st.tuples(st.integers(0, 3), st.integers(0, 3), st.floats(-1, 1),
+                                                              st.floats(0, 6.3)), min_size=1, max_size=2))]
+    c["nul"] = draw(st.booleans())
+    c["stages"] = [[draw(st.sampled_from(["given", "rot", "radial", "given-rev"])),
+                    draw(st.sampled_from([0.4, 1.3, 2.6, 0.1])) * draw(st.sampled_from([-1.0, 1.0]))]
+                   for _ in range(draw(st.integers(2, 4)))]
+    return c
+
+
+def reuse_pred(c):
+    with crash_is_violation("C12:build", "building PoloidalAdvection"):
+        s1, s2, b1, b2, theta, rpts, consts, adv, phis, interp, sref = build(c, True, c["nul"], 1e-10)
+    if sref.cond > 1e8:
+        raise Inconclusive("ill-conditioned collocation")
+    f0, phi_g = fields(c, theta, rpts)
+    cd = advect.const_dict(consts)
+    Q, R = np.meshgrid(theta, rpts, indexing="ij")
+    dth, dr = TWO_PI / c["ntheta"], (rpts[-1] - rpts[0]) / (len(rpts) - 1)
+    s = (rpts - rpts[0]) / (rpts[-1] - rpts[0])
+    f = f0.copy()
+    out_seen = in_seen = False
+    for k, (kind, disp) in enumerate(c["stages"]):
+        if kind == "given":
+            phi = phi_g
+        elif kind == "given-rev":
+            phi = -1.3 * np.roll(phi_g, 1, axis=0)[:, ::-1]
+        elif kind == "rot":
+            phi = np.tile(0.5 * rpts ** 2, (len(theta), 1))
+        else:
+            phi = (rpts[None, :] * np.sin(theta[:, None] + 0.3 * k))
+        interp.compute_interpolant(np.ascontiguousarray(phi), phis)
+        Cphi = phis.coeffs.copy()
+        a0q, a0r, _ = advect.poloidal_velocity(sref, Cphi, Q, R, c["B0"], rpts[0], rpts[-1])
+        speed = max(float(np.abs(a0q).max()) / dth, float(np.abs(a0r).max()) / dr, 1e-300)
+        dt = disp / speed
+        fin = f.copy()
+        want, info = advect.poloidal_step_ref(fin, Cphi, sref, theta, rpts, dt, c["v"], c["B0"], cd, c["nul"], explicit=True)
+        with crash_is_violation("C12:step", "PoloidalAdvection.step (re-used operator, stage %d)" % k):
+            got = fin.copy()
+            adv.step(got, dt, phis, c["v"])
+        tol, _ = tolerances(c, sref, Cphi, info["Cf"], fin, dt, theta, rpts)
+        ok = ~info["near"]
+        err = np.abs(got - want)
+        bad = ok & ~(err <= tol)
+        if bad.any():
+            i, j = np.argwhere(bad)[0]
+            raise Violation("C12:reuse:stage-depends-on-history", "stage %d (%s, displacement %.2f cells) on a re-used operator: node (theta %d, r %d) "
+                            "got %r, a fresh evaluation of the stated scheme gives %r (|diff| %.3e > tol %.3e; %d nodes)"
+                            % (k, kind, disp, i, j, got[i, j], want[i, j], err[i, j], tol, int(bad.sum())))
+        pred_out = (info["k1r"] < rpts[0]) | (info["k1r"] > rpts[-1])
+        out_seen |= bool(pred_out.any())
+        in_seen |= bool((~pred_out).any())
+        f = want.copy()
+        f[~ok] = got[~ok]
+    return {"nontrivial": out_seen and in_seen and len(c["stages"]) >= 2,
+            "labels": ["cu" if b1.cubic_uniform else "nu", "stages=%d" % len(c["stages"]),
+                       "predictor-left-domain" if out_seen else "predictor-always-inside"], "evals": len(c["stages"])}
+
+
 SUBS = {"step": Sub(predicate, strategy=cases), "exact": Sub(exact_pred, strategy=exact_cases),
-        "order": Sub(order_pred, strategy=order_cases)}
+        "order": Sub(order_pred, strategy=order_cases), "reuse": Sub(reuse_pred, strategy=reuse_cases)}
 
 
 def jobs(tier):
-    n1, n2, n3 = (14, 12, 3) if tier == "quick" else (350, 250, 40)
-    return ([{"sub": "step", "n": n1, "shard": i} for i in range(10)] +
+    n1, n2, n3, n4 = (10, 12, 3, 12) if tier == "quick" else (260, 250, 40, 250)
+    return ([{"sub": "step", "n": n1, "shard": i} for i in range(14)] +
             [{"sub": "exact", "n": n2, "shard": i} for i in range(4)] +
-            [{"sub": "order", "n": n3, "shard": i} for i in range(2)])
+            [{"sub": "order", "n": n3, "shard": i} for i in range(2)] +
+            [{"sub": "reuse", "n": n4, "shard": i} for i in range(4)])
